@@ -1,0 +1,19 @@
+//go:build verif
+
+// Contracts for govc (see /verif/DESIGN.md). Comment-only file.
+
+package cksum
+
+//@ property C14
+
+// Update stores the low 16 bits of the crc32 of everything but the last two bytes into those two bytes and
+// touches nothing else (records, btree nodes and state records are written first and checksummed last: the
+// bytes already written must survive). crc32.Checksum is a library call (assumed effect-free).
+//@ func Update(data)
+//@   arith wrap
+//@   requires len(data) >= 2
+//@   modifies elems(data)
+//@   ensures! only_the_checksum_bytes: forall k :: 0 <= k && k < len(data) - 2 ==> data[k] == old(data[k])
+//@ func MustCheck(data)
+//@   assumed
+//@   pure
